@@ -195,3 +195,457 @@ Proof.
 Qed.
 
 End Calls.
+
+(* ------------------------------------------------------------------------------------- *)
+(* kernel invariant and the four system calls                                              *)
+(* ------------------------------------------------------------------------------------- *)
+(* pages outside every mapping are in the default state *)
+Definition k_wf (k : kernel) : Prop := forall a, addr_mapped k a = false -> k_at k a = pg0.
+(* same mappings, same page states *)
+Definition k_eq (k k' : kernel) : Prop := k_maps k' = k_maps k /\ forall a, k_at k' a = k_at k a.
+
+Lemma kernel0_wf : k_wf kernel0.
+Proof. intros a _. reflexivity. Qed.
+
+Lemma in_range_true lo len a : lo <= a -> a < lo + len -> in_range lo len a = true.
+Proof. intros H1 H2. unfold in_range. apply andb_true_intro. split; [apply N.leb_le|apply N.ltb_lt]; assumption. Qed.
+Lemma in_range_false lo len a : a < lo \/ lo + len <= a -> in_range lo len a = false.
+Proof. intros H. unfold in_range. apply andb_false_iff. destruct H; [left; apply N.leb_gt|right; apply N.ltb_ge]; assumption. Qed.
+Lemma in_range_spec lo len a : in_range lo len a = true -> lo <= a /\ a < lo + len.
+Proof. unfold in_range. intros H. apply andb_prop in H as [H1 H2]. apply N.leb_le in H1. apply N.ltb_lt in H2. auto. Qed.
+Lemma in_range_nspec lo len a : in_range lo len a = false -> a < lo \/ lo + len <= a.
+Proof. unfold in_range. intros H. apply andb_false_iff in H as [H|H]; [left; apply N.leb_gt|right; apply N.ltb_ge]; assumption. Qed.
+
+Lemma overlaps_spec m lo len : overlaps m lo len = true <-> m_base m < lo + len /\ lo < m_base m + m_len m.
+Proof. unfold overlaps. rewrite andb_true_iff, !N.ltb_lt. reflexivity. Qed.
+
+Definition fresh (l : list mapping) (p len : N) : Prop := forall m, In m l -> overlaps m p len = false.
+
+Lemma fresh_forallb l p len : forallb (fun m => negb (overlaps m p len)) l = true -> fresh l p len.
+Proof. intros H m Hm. rewrite forallb_forall in H. specialize (H m Hm). apply negb_true_iff in H. exact H. Qed.
+
+Lemma fresh_sub l p len p' len' : fresh l p len -> p <= p' -> p' + len' <= p + len -> fresh l p' len'.
+Proof.
+  intros H H1 H2 m Hm. specialize (H m Hm). apply not_true_is_false. intros C. apply overlaps_spec in C.
+  assert (overlaps m p len = true) by (apply overlaps_spec; lia). congruence.
+Qed.
+
+Lemma cut_fresh lo len m : overlaps m lo len = false -> cut lo len m = [m].
+Proof. intros H. unfold cut. rewrite H. reflexivity. Qed.
+
+Lemma flat_map_cut_fresh l lo len : fresh l lo len -> flat_map (cut lo len) l = l.
+Proof.
+  induction l as [|m l IH]; intros H; [reflexivity|]. cbn [flat_map].
+  rewrite cut_fresh by (apply H; left; reflexivity). rewrite IH by (intros x Hx; apply H; right; assumption). reflexivity.
+Qed.
+
+Lemma fresh_unmapped l p len a : fresh l p len -> p <= a -> a < p + len ->
+  existsb (fun m => in_range (m_base m) (m_len m) a) l = false.
+Proof.
+  intros H A1 A2. apply not_true_is_false. intros C. apply existsb_exists in C as (m & Hm & R).
+  apply in_range_spec in R. specialize (H m Hm).
+  assert (overlaps m p len = true) by (apply overlaps_spec; lia). congruence.
+Qed.
+
+(* cutting a mapping: whole, a prefix, a suffix *)
+Lemma cut_whole b l : 0 < l -> cut b l {| m_base := b; m_len := l |} = [].
+Proof.
+  intros H. unfold cut, overlaps. cbn [m_base m_len].
+  assert (E1 : (b <? b + l) = true) by (apply N.ltb_lt; lia). rewrite E1. cbn [andb negb].
+  assert (E2 : (b <? b) = false) by (apply N.ltb_irrefl). rewrite E2.
+  assert (E3 : (b + l <? b + l) = false) by (apply N.ltb_irrefl). rewrite E3. reflexivity.
+Qed.
+Lemma cut_prefix b l pre : 0 < pre -> pre < l -> cut b pre {| m_base := b; m_len := l |} = [{| m_base := b + pre; m_len := l - pre |}].
+Proof.
+  intros H1 H2. unfold cut, overlaps. cbn [m_base m_len].
+  assert (E1 : (b <? b + pre) = true) by (apply N.ltb_lt; lia).
+  assert (E1' : (b <? b + l) = true) by (apply N.ltb_lt; lia). rewrite E1, E1'. cbn [andb negb].
+  assert (E2 : (b <? b) = false) by (apply N.ltb_irrefl). rewrite E2.
+  assert (E3 : (b + pre <? b + l) = true) by (apply N.ltb_lt; lia). rewrite E3. cbn [app]. f_equal. f_equal. lia.
+Qed.
+Lemma cut_suffix b mid post : 0 < mid -> 0 < post ->
+  cut (b + mid) post {| m_base := b; m_len := mid + post |} = [{| m_base := b; m_len := mid |}].
+Proof.
+  intros H1 H2. unfold cut, overlaps. cbn [m_base m_len].
+  assert (E1 : (b <? b + mid + post) = true) by (apply N.ltb_lt; lia).
+  assert (E1' : (b + mid <? b + (mid + post)) = true) by (apply N.ltb_lt; lia). rewrite E1, E1'. cbn [andb negb].
+  assert (E2 : (b <? b + mid) = true) by (apply N.ltb_lt; lia). rewrite E2.
+  assert (E3 : (b + mid + post <? b + (mid + post)) = false) by (apply N.ltb_ge; lia). rewrite E3. cbn [app]. f_equal. f_equal. lia.
+Qed.
+
+Lemma len_up_ge l : l <= len_up l /\ len_up l < l + PAGE /\ len_up l mod PAGE = 0.
+Proof. unfold len_up. rewrite PAGE_val. lia. Qed.
+Lemma len_up_idem l : len_up (len_up l) = len_up l.
+Proof. apply len_up_aligned. apply len_up_ge. Qed.
+Lemma len_up_pos l : 0 < l -> 0 < len_up l.
+Proof. pose proof (len_up_ge l). lia. Qed.
+
+Section Sys.
+Variable oracle : nat -> answer.
+
+(* mmap: either nothing changes, or a fresh page-aligned mapping is added in front *)
+Lemma sys_mmap_spec o hint len rw o1 r : sys_mmap oracle o hint len rw = (o1, r) ->
+  os_hint o1 = os_hint o /\
+  match r with
+  | None => os_k o1 = os_k o /\ exists c, os_log o1 = c :: os_log o /\ c_kind c = KMmap
+  | Some p =>
+    0 < p /\ p mod PAGE = 0 /\ 0 < len /\ p + len_up len <= ADDR_LIMIT /\ fresh (k_maps (os_k o)) p (len_up len) /\
+    k_maps (os_k o1) = {| m_base := p; m_len := len_up len |} :: k_maps (os_k o) /\
+    k_at (os_k o1) = set_range (k_at (os_k o)) p (len_up len) (fun _ => {| pg_rw := rw; pg_purged := false |}) /\
+    exists c, os_log o1 = c :: os_log o /\ c_kind c = KMmap
+  end.
+Proof.
+  unfold sys_mmap.
+  destruct (a_ok (oracle (os_seq o)) && (0 <? a_addr (oracle (os_seq o))) && (a_addr (oracle (os_seq o)) mod PAGE =? 0) &&
+            (0 <? len) && (a_addr (oracle (os_seq o)) + len_up len <=? ADDR_LIMIT) &&
+            forallb (fun m => negb (overlaps m (a_addr (oracle (os_seq o))) (len_up len))) (k_maps (os_k o))) eqn:V;
+    intros E; injection E as <- <-; (split; [reflexivity|]).
+  - repeat (apply andb_prop in V as [V ?]).
+    repeat split; try reflexivity.
+    + apply N.ltb_lt; assumption.
+    + apply N.eqb_eq; assumption.
+    + apply N.ltb_lt; assumption.
+    + apply N.leb_le; assumption.
+    + apply fresh_forallb; assumption.
+    + eexists. split; reflexivity.
+  - split; [reflexivity|]. eexists. split; reflexivity.
+Qed.
+
+Lemma sys_munmap_spec o addr len o1 b : sys_munmap oracle o addr len = (o1, b) ->
+  os_hint o1 = os_hint o /\
+  os_log o1 = {| c_kind := KMunmap; c_addr := addr; c_len := len; c_arg := 0; c_ok := b; c_res := 0 |} :: os_log o /\
+  (b = false -> os_k o1 = os_k o) /\
+  (b = true -> k_maps (os_k o1) = flat_map (cut addr (len_up len)) (k_maps (os_k o)) /\
+               k_at (os_k o1) = set_range (k_at (os_k o)) addr (len_up len) (fun _ => pg0)).
+Proof.
+  unfold sys_munmap. destruct (a_ok (oracle (os_seq o)) && (addr mod PAGE =? 0) && (0 <? len));
+    intros E; injection E as <- <-; repeat split; try reflexivity; try discriminate.
+Qed.
+
+(* mprotect / madvise never change the mappings and touch only pages inside one mapping *)
+Lemma sys_mprotect_spec o addr len rw o1 b : sys_mprotect oracle o addr len rw = (o1, b) ->
+  os_hint o1 = os_hint o /\ k_maps (os_k o1) = k_maps (os_k o) /\
+  (exists c, os_log o1 = c :: os_log o /\ c_kind c = KMprotect) /\
+  (forall a, in_range addr (len_up len) a = false -> k_at (os_k o1) a = k_at (os_k o) a) /\
+  (forall a, addr_mapped (os_k o) a = false -> k_at (os_k o1) a = k_at (os_k o) a).
+Proof.
+  unfold sys_mprotect. destruct (a_ok (oracle (os_seq o)) && (addr mod PAGE =? 0) && range_mapped (os_k o) addr (len_up len)) eqn:V;
+    intros E; injection E as <- <-; cbn [os_hint os_k os_log step k_maps k_at].
+  - apply andb_prop in V as [_ M]. split; [reflexivity|]. split; [reflexivity|]. split; [eexists; split; reflexivity|]. split.
+    + intros a Ha. unfold set_range. rewrite Ha. reflexivity.
+    + intros a Ha. unfold set_range. destruct (in_range addr (len_up len) a) eqn:R; [|reflexivity].
+      exfalso. apply in_range_spec in R. unfold range_mapped in M. apply existsb_exists in M as (m & Hm & I).
+      unfold inside in I. apply andb_prop in I as [I1 I2]. apply N.leb_le in I1, I2.
+      unfold addr_mapped in Ha. assert (C : existsb (fun m0 => in_range (m_base m0) (m_len m0) a) (k_maps (os_k o)) = true).
+      { apply existsb_exists. exists m. split; [assumption|]. apply in_range_true; lia. }
+      congruence.
+  - split; [reflexivity|]. split; [reflexivity|]. split; [eexists; split; reflexivity|]. split; reflexivity.
+Qed.
+
+Lemma sys_madvise_spec o addr len adv o1 b : sys_madvise oracle o addr len adv = (o1, b) ->
+  os_hint o1 = os_hint o /\ k_maps (os_k o1) = k_maps (os_k o) /\
+  (exists c, os_log o1 = c :: os_log o /\ c_kind c = KMadvise) /\
+  (forall a, in_range addr (len_up len) a = false -> k_at (os_k o1) a = k_at (os_k o) a) /\
+  (forall a, addr_mapped (os_k o) a = false -> k_at (os_k o1) a = k_at (os_k o) a).
+Proof.
+  unfold sys_madvise. destruct (a_ok (oracle (os_seq o)) && (addr mod PAGE =? 0) && range_mapped (os_k o) addr (len_up len)) eqn:V;
+    intros E; injection E as <- <-; cbn [os_hint os_k os_log step k_maps k_at].
+  - apply andb_prop in V as [_ M]. split; [reflexivity|]. split; [reflexivity|]. split; [eexists; split; reflexivity|]. split.
+    + intros a Ha. unfold set_range. rewrite Ha. reflexivity.
+    + intros a Ha. unfold set_range. destruct (in_range addr (len_up len) a) eqn:R; [|reflexivity].
+      exfalso. apply in_range_spec in R. unfold range_mapped in M. apply existsb_exists in M as (m & Hm & I).
+      unfold inside in I. apply andb_prop in I as [I1 I2]. apply N.leb_le in I1, I2.
+      unfold addr_mapped in Ha. assert (C : existsb (fun m0 => in_range (m_base m0) (m_len m0) a) (k_maps (os_k o)) = true).
+      { apply existsb_exists. exists m. split; [assumption|]. apply in_range_true; lia. }
+      congruence.
+  - split; [reflexivity|]. split; [reflexivity|]. split; [eexists; split; reflexivity|]. split; reflexivity.
+Qed.
+
+End Sys.
+
+(* ------------------------------------------------------------------------------------- *)
+(* allocation and free as steps on the ghost kernel                                        *)
+(* ------------------------------------------------------------------------------------- *)
+Lemma k_eq_refl k : k_eq k k.
+Proof. split; reflexivity. Qed.
+Lemma k_eq_trans a b c : k_eq a b -> k_eq b c -> k_eq a c.
+Proof. intros [A1 A2] [B1 B2]. split; [congruence|]. intros x. rewrite B2. apply A2. Qed.
+
+(* o1 is o plus ONE fresh mapping [p, p+sz); pages outside it are as in o *)
+Definition holds_fresh (o o1 : os) (p sz : N) : Prop :=
+  0 < sz /\ fresh (k_maps (os_k o)) p sz /\
+  k_maps (os_k o1) = {| m_base := p; m_len := sz |} :: k_maps (os_k o) /\
+  (forall a, in_range p sz a = false -> k_at (os_k o1) a = k_at (os_k o) a).
+
+(* log extension; nm: no munmap among the new entries *)
+Definition log_ext (o o1 : os) : Prop := exists l, os_log o1 = l ++ os_log o.
+Definition log_ext_nm (o o1 : os) : Prop := exists l, os_log o1 = l ++ os_log o /\ forallb (fun c => negb (is_munmap c)) l = true.
+Lemma log_ext_refl o : log_ext o o.
+Proof. exists []. reflexivity. Qed.
+Lemma log_ext_nm_refl o : log_ext_nm o o.
+Proof. exists []. split; reflexivity. Qed.
+Lemma log_ext_trans a b c : log_ext a b -> log_ext b c -> log_ext a c.
+Proof. intros [l1 E1] [l2 E2]. exists (l2 ++ l1). rewrite E2, E1, app_assoc. reflexivity. Qed.
+Lemma log_ext_nm_trans a b c : log_ext_nm a b -> log_ext_nm b c -> log_ext_nm a c.
+Proof.
+  intros (l1 & E1 & F1) (l2 & E2 & F2). exists (l2 ++ l1). split; [rewrite E2, E1, app_assoc; reflexivity|].
+  rewrite forallb_app, F1, F2. reflexivity.
+Qed.
+Lemma log_ext_nm_weak a b : log_ext_nm a b -> log_ext a b.
+Proof. intros (l & E & _). exists l. exact E. Qed.
+Lemma log_ext_cons o o1 c : os_log o1 = c :: os_log o -> log_ext o o1.
+Proof. intros E. exists [c]. exact E. Qed.
+Lemma munmaps_ok_ext o o1 : log_ext o o1 -> munmaps_ok (os_log o1) = true -> munmaps_ok (os_log o) = true.
+Proof. intros [l E] H. rewrite E in H. unfold munmaps_ok in *. rewrite forallb_app in H. apply andb_prop in H. tauto. Qed.
+
+Section Alloc.
+Variable cfg : oscfg.
+Variable oracle : nat -> answer.
+
+Lemma mmap_aligned_spec o size ta commit o1 r : mmap_aligned cfg oracle o size ta commit = (o1, r) ->
+  log_ext_nm o o1 /\
+  match r with
+  | None => os_k o1 = os_k o
+  | Some p => 0 < p /\ p mod PAGE = 0 /\ 0 < size /\ p + len_up size <= ADDR_LIMIT /\ holds_fresh o o1 p (len_up size)
+  end.
+Proof.
+  unfold mmap_aligned. destruct (os_get_aligned_hint cfg o ta size) as [oh hint] eqn:H.
+  assert (Hk : os_k oh = os_k o /\ os_log oh = os_log o).
+  { unfold os_get_aligned_hint in H.
+    destruct ((ta <=? 1) || (MI_SEGMENT_SIZE <? ta)); [injection H as <- _; auto|].
+    destruct (MI_VIRTUAL_ADDRESS_BITS_ <? 46); [injection H as <- _; auto|].
+    destruct (GiB <? align_up size MI_SEGMENT_SIZE); [injection H as <- _; auto|].
+    destruct ((os_hint o =? 0) || (MI_HINT_MAX_ <? os_hint o));
+      match type of H with (if ?c then _ else _) = _ => destruct c end; injection H as <- _; auto. }
+  destruct Hk as [Hk Hl].
+  assert (G : forall oa ob hint0 r0, os_k oa = os_k o -> log_ext_nm o oa -> sys_mmap oracle oa hint0 size commit = (ob, r0) ->
+              log_ext_nm o ob /\ match r0 with None => os_k ob = os_k o
+                                 | Some p => 0 < p /\ p mod PAGE = 0 /\ 0 < size /\ p + len_up size <= ADDR_LIMIT /\ holds_fresh o ob p (len_up size) end).
+  { intros oa ob hint0 r0 Ka La M. apply sys_mmap_spec in M as (_ & M). destruct r0 as [p|].
+    - destruct M as (M1 & M2 & M3 & M4 & M5 & M6 & M7 & c & M8 & M9). split.
+      + eapply log_ext_nm_trans; [exact La|]. exists [c]. split; [exact M8|]. cbn. unfold is_munmap. rewrite M9. reflexivity.
+      + repeat split; try assumption.
+        * apply len_up_pos; assumption.
+        * rewrite <- Ka. exact M5.
+        * rewrite M6, Ka. reflexivity.
+        * intros a Ha. rewrite M7. unfold set_range. rewrite Ha, Ka. reflexivity.
+    - destruct M as (M1 & c & M2 & M3). split.
+      + eapply log_ext_nm_trans; [exact La|]. exists [c]. split; [exact M2|]. cbn. unfold is_munmap. rewrite M3. reflexivity.
+      + congruence. }
+  assert (Lh : log_ext_nm o oh) by (exists []; split; [rewrite Hl; reflexivity|reflexivity]).
+  destruct (0 <? hint).
+  - destruct (sys_mmap oracle oh hint size commit) as [o2 r2] eqn:M2.
+    destruct (G oh o2 hint r2 Hk Lh M2) as [L2 R2]. destruct r2 as [p|].
+    + intros E. injection E as <- <-. split; assumption.
+    + intros E. apply (G o2 o1 0 r R2 L2 E).
+  - intros E. apply (G oh o1 0 r Hk Lh E).
+Qed.
+
+Lemma os_prim_alloc_spec o size ta commit al o1 r : os_prim_alloc cfg oracle o size ta commit al = (o1, r) ->
+  log_ext_nm o o1 /\
+  match r with
+  | None => os_k o1 = os_k o
+  | Some p => 0 < p /\ p mod PAGE = 0 /\ 0 < size /\ p + len_up size <= ADDR_LIMIT /\ holds_fresh o o1 p (len_up size)
+  end.
+Proof.
+  unfold os_prim_alloc. destruct (size =? 0); [intros E; injection E as <- <-; split; [apply log_ext_nm_refl|reflexivity]|].
+  unfold prim_alloc. destruct (mmap_aligned cfg oracle o size (if ta =? 0 then 1 else ta) commit) as [o2 r2] eqn:M.
+  apply mmap_aligned_spec in M as [L M]. destruct r2 as [p|]; [|intros E; injection E as <- <-; split; assumption].
+  destruct (commit && al && os_use_large_page cfg size (if ta =? 0 then 1 else ta)); [|intros E; injection E as <- <-; split; assumption].
+  destruct (sys_madvise oracle o2 p size MADV_HUGEPAGE_) as [o3 b] eqn:A. cbn [fst]. intros E. injection E as <- <-.
+  apply sys_madvise_spec in A as (_ & A1 & (c & A2 & A3) & A4 & _).
+  destruct M as (M1 & M2 & M3 & M4 & (H1 & H2 & H3 & H4)). split.
+  - eapply log_ext_nm_trans; [exact L|]. exists [c]. split; [exact A2|]. cbn. unfold is_munmap. rewrite A3. reflexivity.
+  - repeat split; try assumption.
+    + rewrite A1. exact H3.
+    + intros a Ha. rewrite A4 by exact Ha. apply H4. exact Ha.
+Qed.
+
+(* munmap of a whole fresh mapping restores the kernel *)
+Lemma unmap_holds o o1 p sz len o2 :
+  k_wf (os_k o) -> holds_fresh o o1 p sz -> len_up len = sz ->
+  sys_munmap oracle o1 p len = (o2, true) -> k_eq (os_k o) (os_k o2).
+Proof.
+  intros W (H0 & H1 & H2 & H3) Hl M. apply sys_munmap_spec in M as (_ & _ & _ & M). destruct (M eq_refl) as [M1 M2].
+  rewrite Hl in *. split.
+  - rewrite M1, H2. cbn [flat_map]. rewrite cut_whole by assumption. rewrite flat_map_cut_fresh by assumption. reflexivity.
+  - intros a. rewrite M2. unfold set_range. destruct (in_range p sz a) eqn:R.
+    + apply in_range_spec in R. symmetry. apply W. unfold addr_mapped. apply (fresh_unmapped _ p sz); tauto.
+    + apply H3. exact R.
+Qed.
+
+(* unmapping a prefix / a suffix of the fresh mapping leaves a smaller fresh mapping *)
+Lemma trim_prefix o o1 p sz pre o2 :
+  k_wf (os_k o) -> holds_fresh o o1 p sz -> 0 < pre -> pre < sz -> pre mod PAGE = 0 ->
+  sys_munmap oracle o1 p pre = (o2, true) -> holds_fresh o o2 (p + pre) (sz - pre).
+Proof.
+  intros W (H0 & H1 & H2 & H3) P1 P2 P3 M. apply sys_munmap_spec in M as (_ & _ & _ & M). destruct (M eq_refl) as [M1 M2].
+  rewrite (len_up_aligned pre P3) in *. split; [lia|]. split; [eapply fresh_sub; [exact H1|lia|lia]|]. split.
+  - rewrite M1, H2. cbn [flat_map]. rewrite cut_prefix by assumption.
+    rewrite flat_map_cut_fresh by (eapply fresh_sub; [exact H1|lia|lia]). reflexivity.
+  - intros a Ha. apply in_range_nspec in Ha. rewrite M2. unfold set_range. destruct (in_range p pre a) eqn:R.
+    + apply in_range_spec in R. symmetry. apply W. unfold addr_mapped. apply (fresh_unmapped _ p sz); [assumption|lia|lia].
+    + apply in_range_nspec in R. apply H3. apply in_range_false. lia.
+Qed.
+
+Lemma trim_suffix o o1 p mid post o2 :
+  k_wf (os_k o) -> holds_fresh o o1 p (mid + post) -> 0 < mid -> 0 < post -> post mod PAGE = 0 ->
+  sys_munmap oracle o1 (p + mid) post = (o2, true) -> holds_fresh o o2 p mid.
+Proof.
+  intros W (H0 & H1 & H2 & H3) P1 P2 P3 M. apply sys_munmap_spec in M as (_ & _ & _ & M). destruct (M eq_refl) as [M1 M2].
+  rewrite (len_up_aligned post P3) in *. split; [lia|]. split; [eapply fresh_sub; [exact H1|lia|lia]|]. split.
+  - rewrite M1, H2. cbn [flat_map]. rewrite cut_suffix by assumption.
+    rewrite flat_map_cut_fresh by (eapply fresh_sub; [exact H1|lia|lia]). reflexivity.
+  - intros a Ha. apply in_range_nspec in Ha. rewrite M2. unfold set_range. destruct (in_range (p + mid) post a) eqn:R.
+    + apply in_range_spec in R. symmetry. apply W. unfold addr_mapped. apply (fresh_unmapped _ p (mid + post)); [assumption|lia|lia].
+    + apply in_range_nspec in R. apply H3. apply in_range_false. lia.
+Qed.
+
+(* a new fresh mapping on top of a kernel that equals the original one *)
+Lemma holds_fresh_eq o o' o1 p sz : k_eq (os_k o) (os_k o') -> holds_fresh o' o1 p sz -> holds_fresh o o1 p sz.
+Proof.
+  intros [E1 E2] (H0 & H1 & H2 & H3). split; [assumption|]. split; [rewrite <- E1; exact H1|]. split; [rewrite H2, E1; reflexivity|].
+  intros a Ha. rewrite H3 by exact Ha. apply E2.
+Qed.
+
+End Alloc.
+
+(* ------------------------------------------------------------------------------------- *)
+(* mi_os_prim_alloc_aligned: direct path and over-allocate-and-trim path                   *)
+(* ------------------------------------------------------------------------------------- *)
+Lemma align_up_page size : size < W64 ->
+  (size + 4095 < W64 /\ align_up size PAGE = len_up size) \/ align_up size PAGE = 0.
+Proof.
+  intros H. destruct (N.lt_ge_cases (size + 4095) W64) as [L|G].
+  - left. split; [assumption|]. rewrite PAGE_val. rewrite align_up_spec by (rewrite ?W64_val in *; lia).
+    unfold len_up. rewrite PAGE_val. f_equal. f_equal. lia.
+  - right. rewrite PAGE_val. unfold align_up.
+    assert (E : (N.land 4096 (wsub 4096 1) =? 0) = true) by reflexivity. rewrite E.
+    assert (M : wsub 4096 1 = 2 ^ 12 - 1) by reflexivity. rewrite M.
+    rewrite land_wnot_mask by (try apply wrap_lt; lia).
+    unfold wadd. rewrite wrap_mod. rewrite W64_val in *.
+    assert (X : (size + (2 ^ 12 - 1)) mod 18446744073709551616 < 4096).
+    { change (2 ^ 12 - 1) with 4095. lia. }
+    change (2 ^ 12) with 4096. rewrite N.div_small by exact X. reflexivity.
+Qed.
+
+Lemma pow2_align_page a : PAGE <= a -> a < W64 -> N.land a (wsub a 1) = 0 -> a mod PAGE = 0.
+Proof.
+  rewrite PAGE_val. intros H1 H2 H3.
+  destruct (land_pred_pow2_dec a ltac:(lia) H2) as (k & Hk & ->); [apply N.eqb_eq; exact H3|].
+  assert (12 <= k).
+  { destruct (N.le_gt_cases 12 k) as [L|G]; [assumption|]. exfalso.
+    assert (2 ^ k < 2 ^ 12) by (apply N.pow_lt_mono_r; lia). change (2 ^ 12) with 4096 in *. lia. }
+  replace k with (12 + (k - 12)) by lia. rewrite N.pow_add_r. change (2 ^ 12) with 4096.
+  rewrite N.mul_comm. apply N.mod_mul. lia.
+Qed.
+
+Definition hide (P : Prop) : Prop := P.
+
+(* mi_align_up_ptr(q, alignment) for a page-multiple alignment *)
+Lemma align_up_var Q a : 0 < a -> Q + a - 1 < W64 -> a < W64 -> a mod 4096 = 0 ->
+  Q <= align_up Q a /\ align_up Q a < Q + a /\ hide (align_up Q a mod a = 0) /\ align_up Q a mod 4096 = 0.
+Proof.
+  intros H0 H1 H2 H3. destruct (align_up_props Q a H0 H1 H2) as (P1 & P2 & P3).
+  split; [exact P1|]. split; [exact P2|]. split; [exact P3|].
+  apply N.mod_divide; [discriminate|]. apply N.mod_divide in H3; [|discriminate]. apply N.mod_divide in P3; [|lia].
+  eapply N.divide_trans; eassumption.
+Qed.
+
+Section Aligned.
+Variable cfg : oscfg.
+Variable oracle : nat -> answer.
+
+(* the effect of mi_os_prim_free when the munmap was not refused *)
+Lemma os_prim_free_ok o addr size o2 :
+  0 < addr -> 0 < size -> os_prim_free oracle o addr size = o2 -> munmaps_ok (os_log o2) = true ->
+  sys_munmap oracle o addr size = (o2, true) /\ log_ext o o2.
+Proof.
+  intros Ha Hs E Hm. unfold os_prim_free in E.
+  assert (Z : ((addr =? 0) || (size =? 0)) = false) by (apply orb_false_intro; apply N.eqb_neq; lia).
+  rewrite Z in E. unfold prim_free in E. destruct (sys_munmap oracle o addr size) as [ox b] eqn:M. cbn [fst] in E. subst ox.
+  pose proof (sys_munmap_spec oracle o addr size o2 b M) as (_ & L & _).
+  rewrite L in Hm. cbn in Hm. apply andb_prop in Hm as [Hb _]. cbn in Hb. subst b.
+  split; [reflexivity|]. eapply log_ext_cons. exact L.
+Qed.
+
+Lemma os_prim_alloc_aligned_spec o size alignment commit al o1 p base :
+  k_wf (os_k o) -> size < W64 -> alignment < W64 ->
+  os_prim_alloc_aligned cfg oracle o size alignment commit al = (o1, Some (p, base)) ->
+  munmaps_ok (os_log o1) = true ->
+  base = p /\ p mod alignment = 0 /\ 0 < p /\ p mod PAGE = 0 /\ 0 < size /\ size + 4095 < W64 /\
+  p + len_up size <= ADDR_LIMIT /\ holds_fresh o o1 p (len_up size) /\ log_ext o o1 /\ PAGE <= alignment.
+Proof.
+  intros W Hs Ha E Hm. unfold os_prim_alloc_aligned in E.
+  destruct ((PAGE <=? alignment) && (N.land alignment (wsub alignment 1) =? 0)) eqn:C; cbn [negb] in E; [|discriminate].
+  apply andb_prop in C as [C1 C2]. apply N.leb_le in C1. apply N.eqb_eq in C2.
+  pose proof (pow2_align_page alignment C1 Ha C2) as Hap.
+  destruct (align_up_page size Hs) as [[Hnw Hau]|Hz].
+  2:{ rewrite Hz in E. unfold os_prim_alloc in E at 1. cbn in E. discriminate. }
+  rewrite Hau in E. set (s1 := len_up size) in *.
+  pose proof (len_up_ge size) as (G1 & G2 & G3). fold s1 in G1, G2, G3.
+  destruct (os_prim_alloc cfg oracle o s1 alignment commit al) as [oa r] eqn:A1.
+  apply os_prim_alloc_spec in A1 as [L1 A1]. destruct r as [P|]; [|discriminate].
+  destruct A1 as (P1 & P2 & P3 & P4 & HF). rewrite (len_up_aligned s1 G3) in P4, HF.
+  assert (Hsz : 0 < size) by (destruct (N.eq_dec size 0) as [->|]; [cbn in P3; lia|lia]).
+  destruct (P mod alignment =? 0) eqn:Al.
+  - (* aligned directly *)
+    injection E as <- <- <-. apply N.eqb_eq in Al.
+    repeat split; try assumption; try (destruct HF as (F0 & F1 & F2 & F3); assumption).
+    apply log_ext_nm_weak. exact L1.
+  - (* free it, over-allocate, trim *)
+    apply N.eqb_neq in Al.
+    set (o2 := os_prim_free oracle oa P s1) in *.
+    destruct (SIZE_MAX_ - alignment <=? s1) eqn:Ov; [discriminate|]. apply N.leb_gt in Ov.
+    assert (SM : SIZE_MAX_ = 18446744073709551615) by reflexivity. rewrite SM in Ov. rewrite W64_val, PAGE_val in *.
+    rewrite (wadd_small s1 alignment) in E by (rewrite W64_val; lia).
+    destruct (os_prim_alloc cfg oracle o2 (s1 + alignment) 1 commit false) as [o3 r3] eqn:A3.
+    destruct r3 as [Q|]; [|discriminate].
+    apply os_prim_alloc_spec in A3 as [L3 (Q1 & Q2 & Q3 & Q4 & HQ)].
+    assert (Hov : len_up (s1 + alignment) = s1 + alignment) by (apply len_up_aligned; rewrite PAGE_val; lia).
+    rewrite Hov in Q4, HQ. rewrite ADDR_LIMIT_val in *. rewrite PAGE_val in Q2.
+    assert (Hal : hide (P mod alignment <> 0)) by exact Al. clear Al.
+    destruct (align_up_var Q alignment ltac:(lia) ltac:(rewrite W64_val; lia) ltac:(rewrite W64_val; lia) Hap) as (B1 & B2 & B3 & B4).
+    remember (align_up Q alignment) as ap eqn:Hapdef. clear Hapdef.
+    rewrite (wsub_small ap Q) in E by lia.
+    assert (Hmid : align_up s1 4096 = s1) by (rewrite align_up_spec by (rewrite ?W64_val; lia); lia).
+    rewrite Hmid in E.
+    rewrite (wsub_small (s1 + alignment) (ap - Q)) in E by lia.
+    rewrite (wsub_small (s1 + alignment - (ap - Q)) s1) in E by lia.
+    rewrite (wadd_small ap s1) in E by (rewrite W64_val; lia).
+    assert (Hpost : (0 <? s1 + alignment - (ap - Q) - s1) = true) by (apply N.ltb_lt; lia). rewrite Hpost in E.
+    set (post := s1 + alignment - (ap - Q) - s1) in *.
+    set (o4 := if 0 <? ap - Q then os_prim_free oracle o3 Q (ap - Q) else o3) in *.
+    set (o5 := os_prim_free oracle o4 (ap + s1) post) in *.
+    injection E as <- <- <-.
+    (* backwards through the log: no munmap was refused *)
+    destruct (os_prim_free_ok o4 (ap + s1) post o5 ltac:(lia) ltac:(unfold post; lia) eq_refl Hm) as [M5 L5].
+    pose proof (munmaps_ok_ext o4 o5 L5 Hm) as Hm4.
+    assert (S4 : log_ext o3 o4 /\ (0 < ap - Q -> sys_munmap oracle o3 Q (ap - Q) = (o4, true)) /\ (ap - Q = 0 -> o4 = o3)).
+    { unfold o4 in *. destruct (0 <? ap - Q) eqn:Pre.
+      - apply N.ltb_lt in Pre. destruct (os_prim_free_ok o3 Q (ap - Q) _ ltac:(lia) Pre eq_refl Hm4) as [M4 L4].
+        split; [exact L4|]. split; [intros _; exact M4|lia].
+      - apply N.ltb_ge in Pre. split; [apply log_ext_refl|]. split; [lia|reflexivity]. }
+    destruct S4 as (L4 & M4 & Z4).
+    pose proof (munmaps_ok_ext o3 o4 L4 Hm4) as Hm3.
+    pose proof (munmaps_ok_ext o2 o3 (log_ext_nm_weak _ _ L3) Hm3) as Hm2.
+    destruct (os_prim_free_ok oa P s1 o2 ltac:(lia) ltac:(lia) eq_refl Hm2) as [M2 L2].
+    (* forwards through the kernel *)
+    pose proof (unmap_holds oracle o oa P s1 s1 o2 W HF (len_up_aligned s1 ltac:(rewrite PAGE_val; exact G3)) M2) as K2.
+    pose proof (holds_fresh_eq o o2 o3 Q (s1 + alignment) K2 HQ) as HQ'.
+    assert (S4 : holds_fresh o o4 ap (s1 + post)).
+    { destruct (N.eq_dec (ap - Q) 0) as [Z|NZ].
+      - rewrite (Z4 Z). assert (ap = Q) by lia. replace (s1 + post) with (s1 + alignment) by (unfold post; lia). subst ap. congruence.
+      - pose proof (trim_prefix oracle o o3 Q (s1 + alignment) (ap - Q) o4 W HQ' ltac:(lia) ltac:(lia)) as T.
+        replace (Q + (ap - Q)) with ap in T by lia.
+        replace (s1 + alignment - (ap - Q)) with (s1 + post) in T by (unfold post; lia).
+        apply T; [rewrite PAGE_val; lia|]. apply M4. lia. }
+    pose proof (trim_suffix oracle o o4 ap s1 post o5 W S4 ltac:(lia) ltac:(unfold post; lia) ltac:(rewrite PAGE_val; unfold post; lia) M5) as S5.
+    repeat split; try assumption; try lia.
+    + destruct S5 as (F0 & F1 & F2 & F3); assumption.
+    + destruct S5 as (F0 & F1 & F2 & F3); assumption.
+    + destruct S5 as (F0 & F1 & F2 & F3); assumption.
+    + eapply log_ext_trans; [apply log_ext_nm_weak; exact L1|]. eapply log_ext_trans; [exact L2|].
+      eapply log_ext_trans; [apply log_ext_nm_weak; exact L3|]. eapply log_ext_trans; [exact L4|exact L5].
+Qed.
+End Aligned.
